@@ -2,7 +2,11 @@
 
 package recorder
 
-import "time"
+import (
+	"time"
+
+	"github.com/bluenviron/mediamtx/internal/stream"
+)
 
 // VerifC24MultiplyAndDivide exposes multiplyAndDivide.
 func VerifC24MultiplyAndDivide(v, m, d int64) int64 { return multiplyAndDivide(v, m, d) }
@@ -15,4 +19,53 @@ func VerifC24MultiplyAndDivide2(v, m, d time.Duration) time.Duration {
 // VerifC24TimestampToDuration exposes timestampToDuration.
 func VerifC24TimestampToDuration(t int64, clockRate int) time.Duration {
 	return timestampToDuration(t, clockRate)
+}
+
+// VerifC24Reader returns the stream reader of the running recorder instance: the recorder formats
+// (format_fmp4.go, format_mpegts.go) registered their per-format callbacks on it.
+func VerifC24Reader(r *Recorder) *stream.Reader {
+	return r.currentInstance.reader
+}
+
+// VerifC24FMP4State is what the fMP4 format holds for its first track after some units were handed to its callback.
+type VerifC24FMP4State struct {
+	HasSegment      bool
+	SegmentStartDTS time.Duration // timestampToDuration(dts of the first written sample)
+	SegmentStartNTP time.Time
+	BaseTime        uint64   // of the track in the current part
+	Durations       []uint32 // of the samples written to the current part (track time scale)
+	TimeScale       uint32
+	HasLast         bool
+	LastDTS         int64 // the pending (last handed) sample
+	LastNTP         time.Time
+}
+
+// VerifC24FMP4 reads the state of the first track of the running fMP4 format (no copy of any logic: fields only).
+func VerifC24FMP4(r *Recorder) (VerifC24FMP4State, bool) {
+	var st VerifC24FMP4State
+	f, ok := r.currentInstance.format2.(*formatFMP4)
+	if !ok || len(f.tracks) == 0 {
+		return st, false
+	}
+	t := f.tracks[0]
+	st.TimeScale = t.initTrack.TimeScale
+	if t.nextSample != nil {
+		st.HasLast = true
+		st.LastDTS = t.nextSample.dts
+		st.LastNTP = t.nextSample.ntp
+	}
+	if s := f.currentSegment; s != nil {
+		st.HasSegment = true
+		st.SegmentStartDTS = s.startDTS
+		st.SegmentStartNTP = s.startNTP
+		if s.curPart != nil {
+			if pt := s.curPart.partTracks[t]; pt != nil {
+				st.BaseTime = pt.BaseTime
+				for _, sa := range pt.Samples {
+					st.Durations = append(st.Durations, sa.Duration)
+				}
+			}
+		}
+	}
+	return st, true
 }
